@@ -35,6 +35,10 @@ var (
 	c06KeyOct  = seqx.Sym("a", "B", "0", "!", "~", "%", ".", "-")      // cookie-octets that are also token chars
 	c06ValOct  = seqx.Sym("a", "B", "0", "=", "!", "~", "/", "%", ":") // cookie-octets
 	c06Words   = []string{"; Secure", ";HttpOnly", "; domain=evil.com", "; path=/evil", "; max-age=9", "; expires=Wed, 01 Jan 2098 00:00:00 GMT", "; SameSite=Strict", "; Partitioned", "\r\nSet-Cookie: x=y", "\"; Secure; \"", ", x=y; Secure"}
+	// percent-encoded separators: SetPath percent-decodes (normalizePath), so neutralising must happen after decoding
+	c06Pct      = seqx.Sym("a", "/", "=", "%3B", "%3b", "%0D", "%0A", "%2C", "%20")
+	c06PctWords = []string{"%3B Secure", "%3b%20HttpOnly", "%3B Domain=evil.example", "%3B%20domain=evil.example", "%3B path=/evil", "%3B max-age=9",
+		"%3B expires=Wed, 01 Jan 2098 00:00:00 GMT", "%3B SameSite=Strict", "%3B%20Partitioned", "%0D%0ASet-Cookie: x=y", "%2C x=y%3B Secure", "%253B Secure"}
 	c06Expiry  = []time.Time{{}, time.Unix(1, 0).UTC(), time.Date(9999, 12, 31, 23, 59, 59, 0, time.UTC)}
 	c06MaxAges = []int{0, -1, 5}
 	c06Modes   = []CookieSameSite{CookieSameSiteDisabled, CookieSameSiteDefaultMode, CookieSameSiteLaxMode, CookieSameSiteStrictMode, CookieSameSiteNoneMode}
@@ -574,7 +578,7 @@ func TestVerif_C06(t *testing.T) {
 	valOct2 := c06Strings(c06ValOct, 2, false)
 	valOctN := c06Strings(c06ValOct, vrt.Pick(r, 2, 4), false)
 	r.Rule(fmt.Sprintf("(a) response cookies: each of key/value/domain/path in turn over all strings of <=%d symbols of {a ; = \" SP CR LF , \\} plus %d attribute-looking payloads x all %d attribute combinations "+
-		"(expiry {none, epoch+1s, 9999-12-31}, max-age {0,-1,5}, Secure, HttpOnly, SameSite x5, Partitioned); every pair of those four arguments over strings <=2 x %d attribute combinations; "+
+		"(expiry {none, epoch+1s, 9999-12-31}, max-age {0,-1,5}, Secure, HttpOnly, SameSite x5, Partitioned); path and domain additionally over all strings of the same length over {a / = %%3B %%3b %%0D %%0A %%2C %%20} plus percent-encoded attribute-looking payloads x all combinations (SetPath percent-decodes); every pair of those four arguments over strings <=2 x %d attribute combinations; "+
 		"cookie-octet keys (<=2 token symbols) x values (<=2) x domain {none, example.com} x path {none, /p/q} x %d combinations and %d key(s) x values <=%d x the same x all combinations. "+
 		"Oracle: the Set-Cookie string has exactly one ';'-separated segment per attribute set; Cookie.ParseBytes of it, ResponseHeader.SetCookie->Write->Read->VisitAllCookie/Cookie, and net/http.ParseSetCookie report no attribute that was not set "+
 		"and every flag/max-age/expiry that was; cookie-octet inputs come back byte-exact (expiry to the second). "+
@@ -620,6 +624,27 @@ func TestVerif_C06(t *testing.T) {
 			})
 		}
 	}
+	// path and domain again over percent-encoded separators (the path setter percent-decodes its argument)
+	pct := c06Strings(c06Pct, advLen, false)
+	for _, w := range c06PctWords {
+		pct = append(pct, w, "/app"+w, "/app"+w+"/x")
+	}
+	for _, f := range []int{2, 3} {
+		f := f
+		for lo := 0; lo < len(pct); lo += 64 {
+			lo := lo
+			jobs = append(jobs, func(st *c06Stats) {
+				for _, s := range pct[lo:min(lo+64, len(pct))] {
+					for _, a := range allAttrs {
+						cs := mk(f, s, benign)
+						cs.Attr, cs.Dev = a, fields[f]
+						c06CheckResp(r, cs, true, st)
+					}
+				}
+			})
+		}
+	}
+	r.Set("pct_encoded_strings_per_field", len(pct))
 	for f1 := 0; f1 < 4; f1++ {
 		for f2 := f1 + 1; f2 < 4; f2++ {
 			f1, f2 := f1, f2
